@@ -234,6 +234,15 @@ def job_bitfield_vec(t, L):
             bb = sx(b, W + 8) if sg else zx(b, W + 8)
             return z3.If(z3.Or(bb >= W, bb < 0), z3.BitVecVal(-1, W), z3.Extract(W - 1, 0, (z3.BitVecVal(1, W + 8) << bb) - 1))
         S.check_fn(U, 'mask_v%d_%s' % (L, t), lambda i, o: [('mask%d' % k, o[0][k] == mask_spec(i[0][k])) for k in range(L)], lambda i: [x >= 0 for x in i[0]] if sg else [], bounds='all non-negative bit counts')
+        def fill_spec(v, first, cnt, one):
+            outb = []
+            for p in range(W):
+                inside = z3.And(first <= p, z3.BitVecVal(p, 32) < first + cnt)
+                outb.append(z3.If(inside, z3.BitVecVal(1 if one else 0, 1), bit(v, p)))
+            outb.reverse(); return z3.Concat(*outb)
+        pre_f = lambda i: [i[1][0] >= 0, i[1][1] >= 0, i[1][0] + i[1][1] <= W, i[1][0] <= W, i[1][1] <= W]
+        S.check_fn(U, 'fill_v%d_%s' % (L, t), lambda i, o: [('fill-one%d' % k, o[0][k] == fill_spec(i[0][k], i[1][0], i[1][1], True)) for k in range(L)] + [('fill-zero%d' % k, o[1][k] == fill_spec(i[0][k], i[1][0], i[1][1], False)) for k in range(L)],
+                   pre_f, side=False, bounds='all x, 0<=first, 0<=count, first+count<=%d' % W)
         if t != 'u8':
             S.check_fn(U, 'log2_v%d_%s' % (L, t), lambda i, o: [('log2-%d' % k, o[0][k] == highest_set(i[0][k], W)) for k in range(L)], lambda i: [pos(x, sg) for x in i[0]], bounds='all x > 0')
     return run
